@@ -364,6 +364,25 @@ fn conversions<B: Fld>(run: &Run, n: u64) {
             Ok(back) if back == arr && back.as_ptr() == arr.as_ptr() => {},
             _ => st.violation(format!("{}:bytes_as_elements:roundtrip", B::NAME), J::s(v.to_string())),
         }
+        // every start offset inside a 16-byte aligned buffer: the reinterpretation is granted exactly when the
+        // start is aligned for the element type (and the length is a whole number of elements)
+        if i % 16 == 0 {
+            let store: [u128; 6] = [v, 1, 2, 3, 4, 5];
+            let raw = unsafe { core::slice::from_raw_parts(store.as_ptr() as *const u8, 96) };
+            for off in 0..32usize {
+                let slice = &raw[off..off + 2 * nb];
+                let aligned = (slice.as_ptr() as usize) % core::mem::align_of::<B>() == 0;
+                match unsafe { B::bytes_as_elements(slice) } {
+                    Ok(els) if aligned && els.len() == 2 && els.as_ptr() as usize == slice.as_ptr() as usize => {},
+                    Err(_) if !aligned => {},
+                    _ => st.violation(format!("{}:bytes_as_elements:alignment", B::NAME), J::obj(vec![("offset", J::i(off)), ("aligned_for_the_type", J::B(aligned))])),
+                }
+                if unsafe { B::bytes_as_elements(&raw[off..off + 2 * nb + 1]) }.is_ok() {
+                    st.violation(format!("{}:bytes_as_elements:ragged-length-accepted", B::NAME), J::i(off));
+                }
+            }
+            st.count(&format!("{}.bytes_as_elements_offsets", B::NAME));
+        }
         st.case(wfv::fnv(format!("{}v{}", B::NAME, v).as_bytes()), true);
         st.count(&format!("{}.conversion_values", B::NAME));
         st.sample("conversion", || J::obj(vec![("field", J::s(B::NAME)), ("integer", J::s(v.to_string()))]));
